@@ -465,7 +465,12 @@ func ToPairAlign(samIn, ref io.Reader, outpath string, wrap int, trimStart int, 
 
 	go groupSamRecords(samIn, cSH, cSR, cReadDone, cErr)
 
-	_ = <-cSH
+	// the reader reports a stream it can't parse (e.g. an empty one) on the error channel instead
+	select {
+	case err := <-cErr:
+		return err
+	case <-cSH:
+	}
 
 	go writePairwiseAlignment(outpath, wrap, cPairTrim, cWriteDone, cErr, omitRef)
 
